@@ -353,6 +353,24 @@ def g_powers(ctx, rng, i):
         tc * (g.Line(h) if dim == 2 else g.Plane(h))
         tc * t
         t * tc
+    # one transformation on large collections (64 ... 200 elements, one and two axes) of points, hyperplanes, 3D lines and quadrics,
+    # and the group laws on them
+    s2 = g.Transformation(_rand_matrix(rng, n, (i // 2 + 1) % 4))
+    for shape in ((64,), (70,), (8, 25))[i % 3:][:2]:
+        kk = int(np.prod(shape))
+        big_p = g.PointCollection(np.stack([gen.finite_point(rng, dim, w=1) for _ in range(kk)]).reshape(shape + (n,)))
+        big_h = (g.LineCollection if dim == 2 else g.PlaneCollection)(np.stack([gen.nonzero_vec(rng, n, 5) for _ in range(kk)]).reshape(shape + (n,)))
+        objs_ = [big_p, big_h]
+        if dim == 3:
+            objs_.append(g.join(big_p, g.PointCollection(np.asarray(big_p.array) + np.append(gen.nonzero_vec(rng, 3, 3), 0))))
+        for x in objs_:
+            try:
+                y = t * x
+                (s2 * t) * x
+                s2 * y
+                t.inverse() * y
+            except Exception as e:
+                ctx.judge("apply", False, [t, x], what=f"transformation of a collection of shape {shape} raised {type(e).__name__}: {e}", op="apply")
     # a transformation collection with more collection axes than the collection it acts on; the image is transformed again
     tc2 = g.TransformationCollection(np.stack([ms, ms[::-1]]))  # shape (2, 4)
     pc = g.PointCollection(np.stack([gen.finite_point(rng, dim, w=1) for _ in range(4)]))
